@@ -13,16 +13,28 @@ primality test, go-ethereum's RLP / header hash, and the specification's era tab
 """
 
 
-def generate(ctx):
+def generate_consts(ctx):
     return ctx.run_extract("ethtables", ["lean"], out_lean="EthConsts.lean")
+
+
+def generate(ctx):
+    """Constants + the primality / compositeness certificates of both size tables (8 modules of 4 x 64 epochs each,
+    checked by the kernel in Poly/Proofs/EthSizeChk0..7.lean)."""
+    a = generate_consts(ctx)
+    ok = a is not None
+    for k in range(8):
+        if ctx.run_extract("ethtables", ["certs", str(k)], out_lean="EthSizeCerts%d.lean" % k) is None:
+            ok = False
+    return a if ok else None
 
 
 def run(ctx):
     ctx.level = "proof"
     ctx.assumptions += [
         "big.Int.Div is Euclidean division and big.Int.Exp(2,y,nil) = 2^y (math/big); uint64/int64 casts modelled explicitly",
-        "the 2 x 2048 ethash size table entries are tied to the computed (proved) definition by evaluation in the correspondence, "
-        "not by a Lean theorem (no native_decide)",
+        "the 2 x 2048 ethash size table entries are PROVED equal to the computed sizes: extract/ethtables emits, per entry, a non-trivial "
+        "divisor for every larger candidate and a Pratt chain for the entry's item count; a Lean checker is evaluated on them by the kernel "
+        "(decide +kernel, no native_decide) and proved sound with Mathlib's lucas_primality; the certificates are untrusted input",
         "Keccak-256 and the RLP library are external; the model produces the RLP pre-image, the harness checks Hash() = Keccak(pre-image)",
         "fork predicates modelled for the production configuration (isTest = false); network ids 1, 2 and an unknown id exercised",
         "difficulty eras before Muir Glacier (block < 9 200 000 on main net) are outside the client's range and not compared",
